@@ -8,6 +8,7 @@ import Pdt.Driver.ProgCodec
 import Pdt.Model.Resolve
 import Pdt.Model.Verbs
 import Pdt.Model.Ops
+import Pdt.Model.Impl
 import Pdt.Gen.OpTable
 import Pdt.Gen.Casts
 
@@ -122,6 +123,24 @@ def handle (j : Json) : Except String String := do
       let (v, _) ← Codec.litOfJson (← j.getObjVal? "arg")
       let t ← Codec.dtypeOfJson (← j.getObjVal? "to")
       pure (Ops.castVal v t).toText
+  | "get_impl" =>
+      let b ← j.getObjValAs? String "backend"
+      let op ← j.getObjValAs? String "op"
+      let args ← (← (← j.getObjVal? "args").getArr?).toList.mapM Codec.dtypeOfJson
+      match Gen.backendChains.find? (·.1 == b) with
+      | none => throw s!"unknown backend {b}"
+      | some (_, chain) =>
+        pure (match getImpl chain op args with
+          | .found i => s!"found {i}"
+          | .notSupported => "NotSupportedError"
+          | .internalError => "internal")
+  | "cast_type" =>
+      -- static outcome of `Cast(col of type src, tgt)`
+      let src ← Codec.dtypeOfJson (← j.getObjVal? "src")
+      let tgt ← Codec.dtypeOfJson (← j.getObjVal? "tgt")
+      match typeOf (.cast (.col 0 src .elementWise) tgt) with
+      | .ok t => pure ("ok " ++ t.toText)
+      | .error e => pure e.toText
   | "program" =>
       let b ← j.getObjValAs? String "backend"
       let r ← runProgram (backendOf b) (← j.getObjVal? "program")
